@@ -37,6 +37,25 @@ def generate(rnd, tier, index=0):
     u = rnd.random()
     mode = "reorder" if u < 0.55 else "relabel" if u < 0.80 else "shift" if u < 0.90 else "scale"
     regime = rnd.choice(["exact", "exact", "float"])
+    if mode == "reorder" and rnd.random() < 0.03:
+        # one LARGE fit (more than a thousand rows per arm, drifting feature distribution) of a linear policy with
+        # scale=True, delivered once in time order and once shuffled: any block-wise / running computation inside a single
+        # training call shows up as order dependence
+        lp = gen.gen_lp(rnd, rnd.choice(["LinGreedy", "LinUCB"]))
+        lp[1]["scale"] = True
+        if lp[0] == "LinGreedy":
+            lp[1]["epsilon"] = 0
+        cfg, spare = gen.gen_cfg(rnd, lp=lp, with_np=False, arms_lo=2, arms_hi=2)
+        d = rnd.randint(1, 2)
+        n = rnd.randint(2200, 2700)
+        rows = gen.gen_rows(rnd, cfg["arms"], n, d, "float", "real", True)
+        for i, r in enumerate(rows):
+            r[2] = [round(x + 6.0 * i / n, 6) for x in r[2]]
+        perm = list(range(n))
+        rnd.shuffle(perm)
+        Q = gen.gen_Q(rnd, rnd.randint(1, 3), d, "float", [r[2] for r in rows[:50]])
+        return {"cfg": cfg, "regime": "float", "mode": mode, "rows": rows, "perm": perm, "cuts1": [], "cuts2": [], "Q": Q,
+                "ops": [], "big": True}
     if mode == "reorder":
         cfg, spare = gen.gen_cfg(rnd, with_np=rnd.random() < 0.5, np_names=("Radius", "LSHNearest"))
         cfg["n_jobs"] = rnd.choice([1, 1, 2, 3])       # rows are hashed / arms are fit in several blocks
